@@ -434,6 +434,20 @@ def rule_b(ctx: Ctx) -> None:
         ctx.ok(f"{f.key}|delegates to parent.set(key, expression, self.index)")
     else:
         ctx.fail(f.module, f.node, f.key, "replace -> parent.set(key, expression, index)", "Expression.replace must re-link through parent.set with the node's index")
+    # ... and the reset of self's own links afterwards must spare a node that is an element of its own replacement list
+    resets = [st for st in walk_no_nested(f.node) if isinstance(st, ast.If) and any(norm(x) == "self.parent = None" for x in st.body)]
+    ctx.require(len(resets) == 1, "anchor vanished: Expression.replace no longer clears self.parent under one guard")
+    guard = resets[0].test
+    mentions_identity = "expression is not self" in norm(guard, 400)
+    handles_list = any(isinstance(x, ast.Compare) and isinstance(x.ops[0], ast.Is) and norm(x.comparators[0]) == "self" for x in ast.walk(guard)) or " in expression" in norm(guard, 400)
+    if mentions_identity and handles_list:
+        ctx.ok(f"{f.key}|links cleared unless the node is (in) its own replacement", {"guard": norm(guard, 120)})
+    elif mentions_identity:
+        ctx.fail(f.module, resets[0], f.key, f"if {norm(guard, 80)}: self.parent = None",
+                 "replace() clears the node's links whenever the replacement is not the node itself — also when the replacement is a list that contains the node "
+                 "(node.replace([node, other])): the node stays stored in the parent but records parent=None")
+    else:
+        ctx.ok(f"{f.key}|guard form not recognised", {"decided": False})
     p = ctx.repo.func(CORE, "Expression.pop")
     if any(isinstance(c, ast.Call) and call_name(c) == "self.replace" for c in walk_no_nested(p.node)):
         ctx.ok(f"{p.key}|delegates to replace(None)")
@@ -762,7 +776,9 @@ def rule_g(ctx: Ctx) -> None:
             is_set = isinstance(c.func, ast.Attribute) and c.func.attr in ("set", "append") and len(c.args) >= 2
             cn = (call_name(c) or "").split(".")[-1]
             is_ctor = cn in names and cn[:1].isupper()
-            vals = [c.args[1]] if is_set else (list(c.args) + [k.value for k in c.keywords]) if is_ctor else []
+            cf_ = next((k.value for k in c.keywords if k.arg == "copy"), None)
+            is_nocopy_builder = isinstance(cf_, ast.Constant) and cf_.value is False and not is_set
+            vals = [c.args[1]] if is_set else (list(c.args) + [k.value for k in c.keywords if k.arg != "copy"]) if (is_ctor or is_nocopy_builder) else []
             for v in vals:
                 if not (isinstance(v, ast.Name) and v.id in defs):
                     continue
